@@ -10,7 +10,7 @@ res() { echo "[$1] exit=$2"; }
 run_demo() {  # $1 = label
   if [ -f $out/demo.sh ]; then bash $out/demo.sh $wt > /tmp/confirm-demo-$1.log 2>&1; res "demo.sh $1" $?
   else
-    pkg=$(grep -m1 -o "internal/ergo\|cmd/ergo" $out/notes.md || echo internal/ergo)
+    pkg=${PKG:-$(grep -m1 -o "internal/ergo\|cmd/ergo" $out/notes.md || echo internal/ergo)}
     for f in $out/*_test.go; do cp $f $wt/$pkg/zz_$(basename $f); done
     GOFLAGS=-mod=mod go test -vet=off -count=1 ./$pkg/ -run "$(grep -ho 'func Test[A-Za-z0-9_]*' $out/*_test.go | sed 's/func //' | paste -sd'|')" > /tmp/confirm-demo-$1.log 2>&1; res "demo test ($pkg) $1" $?
     rm -f $wt/$pkg/zz_*_test.go
